@@ -211,13 +211,13 @@ func checkC04(c *FileCase) *Violation {
 			st.Note("last_rejection", clip(res.Err.Error()+"\n"+src, 800))
 			return nil
 		}
-		if v := closureCheck(c.File, res.Out); v != nil {
+		if v := closureCheck(c.model(), res.Out); v != nil {
 			v.Detail = fmt.Sprintf("opt=%v %s\n--- source\n%s--- output\n%s", opt, v.Detail, src, res.Out)
 			return v
 		}
 		hoisted = countHoisted(res.Out)
 	}
-	after, inCase := labelAfterTerminator(c.File)
+	after, inCase := labelAfterTerminator(c.model())
 	nt := after || inCase || (hoisted >= 2 && len(c.File.Scripts()) >= 2)
 	var lbl []string
 	if after {
@@ -234,6 +234,9 @@ func checkC04(c *FileCase) *Violation {
 }
 
 func genC04(t *rapid.T) *FileCase {
+	if rapid.IntRange(0, 2).Draw(t, "kitchen") == 0 {
+		return genKitchenCase(t, 0, 4)
+	}
 	cfg := DefaultFileCfg()
 	cfg.CF.MaxLabels = 4
 	if rapid.Bool().Draw(t, "scriptsonly") {
@@ -248,7 +251,7 @@ func TestC04_Regress(t *testing.T) { runRegress(t, "C04") }
 
 func TestC04_Closed(t *testing.T) {
 	st := stat("C04")
-	st.SetRule("whole files (scripts with the C01 control-flow grammar incl. labels in dead code and after break/end/return/goto, inline text and moves(), texts, movements, marts, mapscripts with inline scripts and tables, raw blocks), optimize off and on; checks on the parsed output: every label defined once, every generated jump/case target, inline map-script target and hoisted argument defined, every user label present once, no instruction can fall into data / the next top-level block / the end of the output. non-trivial = a user label after break/continue/end/return/goto in its block or inside a switch case body, or >=2 scripts with >=2 hoisted blocks; distinct by source text")
+	st.SetRule("whole files (scripts with the C01 control-flow grammar incl. labels in dead code and after break/end/return/goto, inline text and moves(), texts, movements, marts, mapscripts with inline scripts and tables, raw blocks; one file in three also has AutoVar conditions, statement poryswitch, constants and symbolic case values), optimize off and on; checks on the parsed output: every label defined once, every generated jump/case target, inline map-script target and hoisted argument defined, every user label present once, no instruction can fall into data / the next top-level block / the end of the output. non-trivial = a user label after break/continue/end/return/goto in its block or inside a switch case body, or >=2 scripts with >=2 hoisted blocks; distinct by source text")
 	st.Assume("user-chosen names do not imitate generated names (generator never produces *_<digits>, *_Text_<n>, *_Movement_<n>)")
 	runRapid(t, "C04", "TestC04_Closed", genC04, checkC04, fileCaseSrc)
 }
